@@ -387,8 +387,14 @@ impl Hash for Object {
             Object::Char(ref ch) => ch.hash(state),
             Object::Byte(ref b) => b.hash(state),
             Object::Float(ref f) => {
-                // Use the built-in hash function for f64
-                state.write_u64(f.to_bits());
+                // Hash consistently with PartialEq: a float that equals an
+                // integer (1.0 == 1, -0.0 == 0) must hash like that integer.
+                let n = *f as i64;
+                if (n as f64) == *f {
+                    n.hash(state);
+                } else {
+                    state.write_u64(f.to_bits());
+                }
             }
             Object::Bool(ref b) => b.hash(state),
             Object::Str(ref s) => s.hash(state),
